@@ -829,6 +829,11 @@ class Interpreter(BaseInterpreter[TContext, TEvent]):
             await self._send_to_actor(actor, target_event)
             return
 
+        # 🛑 `stop()` called from inside this macrostep has already released
+        #    every pending send; one scheduled now would outlive it.
+        if self.status == "stopped":
+            return
+
         key = str(send_id) if send_id else None
 
         async def _delayed() -> None:
@@ -953,6 +958,11 @@ class Interpreter(BaseInterpreter[TContext, TEvent]):
                 `services` logic is not a valid `MachineNode` or an async
                 factory function that returns one.
         """
+        # 🛑 `stop()` called from inside this macrostep has already stopped
+        #    every child; one spawned now would never be stopped by anyone.
+        if self.status == "stopped":
+            return
+
         logger.info("👶 Spawning actor for action: '%s'", action_def.type)
         actor_machine_key = spawn_service_key(action_def.type)
 
